@@ -87,6 +87,8 @@ def sym_specs(draw, tier):
         n = draw(st.integers(2, 48 if tier == "thorough" else 24))
         dr = gen.r6(10 ** draw(st.floats(-2, 1.5, **finite)))
         R = gen.r6(dr * draw(st.floats(0.5001, n - 1, **finite)))
+        if draw(st.integers(0, 5)) == 2:  # the droplet reaches the outer cells or fills the whole grid (every cell centre covered)
+            R = gen.r6(dr * draw(st.sampled_from([n - 0.75, n - 0.5001, n - 0.4999, n - 0.25, float(n), n + 0.25, n + 0.49])))
         return {"family": fam, "grid": {"n": n, "dr": dr}, "droplets": [{"radius": R}]}
     g = draw(gen.cyl_grids(max_shape=(12, 32) if tier == "quick" else (20, 48)))
     dr, dz, nr, nz = g["dr"], g["dz"], g["nr"], g["nz"]
